@@ -3,6 +3,8 @@
 //! the real `tensor_store::HNSWIndex` (stream `hnsw`: insert by insert, search by search, node id
 //! for node id) against the Lean model `drv_vec`, plus property oracles evaluated on the engine's
 //! own outputs against a brute-force computation done here in exact integer arithmetic.
+//! Streams `directed.ns.*` / `ns`: the storage-key layer (key prefixes, cache slot names) on
+//! colliding key / collection-name strings against `NsModel.lean`; they run first.
 //!
 //! Vectors are integer valued (|x| <= 64, dim <= 16): every f32 product / sum the engine
 //! performs is then exact, and the remaining rounded operations (sqrt, one multiply, one
@@ -16,8 +18,8 @@ use std::panic::AssertUnwindSafe;
 use std::sync::Arc;
 use tensor_store::{HNSWDistanceMetric, ScalarValue, TensorValue};
 use vector_engine::{
-    DistanceMetric, EmbeddingInput, FilterCondition, FilterValue, FilteredSearchConfig, HNSWConfig,
-    HNSWIndex, Pagination, VectorCollectionConfig, VectorEngine, VectorEngineConfig, VectorError,
+    DistanceMetric, EmbeddingInput, ExtendedDistanceMetric, FilterCondition, FilterValue, FilteredSearchConfig,
+    HNSWConfig, HNSWIndex, Pagination, VectorCollectionConfig, VectorEngine, VectorEngineConfig, VectorError,
 };
 
 type Md = Vec<(String, i64)>;
@@ -159,6 +161,9 @@ enum Op {
     BatchStore { inputs: Vec<(String, Vec<i64>)> },
     /// `search_similar_paginated(q, k, Pagination { skip, limit, count_total: true })`
     SearchP { q: Vec<i64>, k: usize, skip: usize, limit: Option<usize> },
+    /// `build_hnsw_index(default config)` over the default collection, then `search_with_hnsw`
+    /// (`rerank`: `search_with_hnsw_and_metric(.., Cosine)`) on the index and key list it returned
+    HSearch { q: Vec<i64>, k: usize, rerank: bool },
     /// harness-internal (never sent to the model): `invalidate_hnsw_cache`, used only to confirm
     /// that a violation is caused by a stale cache before charging it to a mutation
     Invalidate { c: Option<String> },
@@ -214,6 +219,7 @@ impl Op {
                 if inputs.is_empty() { "-".to_string() } else { inputs.iter().map(|(k, v)| format!("{k}:{}", ints(v))).collect::<Vec<_>>().join(";") }
             ),
             Op::SearchP { q, k, skip, limit } => format!("searchp {} {k} {skip} {}", ints(q), limit.map_or("-".to_string(), |l| l.to_string())),
+            Op::HSearch { q, k, .. } => format!("hwith {} {k}", ints(q)),
             Op::Invalidate { .. } => "noop".into(),
         }
     }
@@ -241,6 +247,8 @@ impl Op {
             Op::RmField { .. } => "remove_metadata_field",
             Op::BatchStore { .. } => "batch_store_embeddings",
             Op::SearchP { .. } => "search_similar_paginated",
+            Op::HSearch { rerank: false, .. } => "search_with_hnsw",
+            Op::HSearch { rerank: true, .. } => "search_with_hnsw_and_metric",
             Op::Invalidate { .. } => "invalidate_hnsw_cache",
         }
     }
@@ -513,7 +521,9 @@ impl Runner {
                     match self.eng.build_hnsw_index(HNSWConfig::default()) {
                         Ok((idx, keys)) => {
                             let idx = Arc::new(idx);
-                            self.eng.cache_hnsw_index("_default", idx.clone(), keys.clone());
+                            // the mapping holds STORAGE keys, as `build_and_cache_index` caches them since
+                            // 4fa63773 (`search_similar` strips the storage prefix from every cached key)
+                            self.eng.cache_hnsw_index("_default", idx.clone(), keys.iter().map(|k| format!("emb:{k}")).collect());
                             self.dflt.built = true;
                             self.dflt.muts.clear();
                             let n = keys.len();
@@ -599,7 +609,8 @@ impl Runner {
                     idx.insert(v.clone());
                 }
                 let idx = Arc::new(idx);
-                self.eng.cache_hnsw_index(c, idx.clone(), keys.clone());
+                // storage keys, as in the engine's own `search_in_collection_uses_cached_hnsw`
+                self.eng.cache_hnsw_index(c, idx.clone(), keys.iter().map(|k| format!("coll:{c}:emb:{k}")).collect());
                 let sp = self.named.entry(c.clone()).or_default();
                 sp.built = true;
                 sp.muts.clear();
@@ -708,7 +719,7 @@ impl Runner {
                     Err(e) => Err(verr(&e).to_string()),
                 };
                 if let Ok(r) = &res {
-                    oracle_page(op.tag(), r, q, limit.unwrap_or(usize::MAX), *skip, inner, Metric::Cos, &self.dflt, None, true, viol);
+                    oracle_page(op.tag(), r, q, limit.unwrap_or(usize::MAX), *skip, inner, Metric::Cos, &self.dflt, None, true, false, viol);
                 }
                 Obs::Search { res, ann }
             }
@@ -728,6 +739,56 @@ impl Runner {
                     }
                 }
                 Obs::Plain("ok".into())
+            }
+            Op::HSearch { q, k, rerank } => {
+                let qf = f32s(q);
+                let (idx, keys) = match self.eng.build_hnsw_index(HNSWConfig::default()) {
+                    Ok(x) => x,
+                    Err(e) => return Obs::Search { res: Err(format!("build_{}", verr(&e))), ann: None },
+                };
+                // the harness's own view of what was indexed: a successful build means one dimension
+                let indexed_dim = self.dflt.items.values().next().map(|x| x.0.len());
+                let mismatch = !q.is_empty() && *k > 0 && indexed_dim.map_or(false, |d| d != q.len());
+                let eng = &self.eng;
+                let call = guarded(AssertUnwindSafe(|| {
+                    if *rerank {
+                        eng.search_with_hnsw_and_metric(&idx, &keys, &qf, *k, &ExtendedDistanceMetric::Cosine)
+                    } else {
+                        eng.search_with_hnsw(&idx, &keys, &qf, *k)
+                    }
+                }));
+                match call {
+                    Err(p) => {
+                        // the property: an index is consulted only with a query of its own dimension
+                        viol.push(Viol {
+                            site: op.tag().into(),
+                            kind: if mismatch { "query_dimension_not_checked" } else { "panic" },
+                            what: format!("index over dim-{indexed_dim:?} vectors, query of dim {}: panic: {p}", q.len()),
+                        });
+                        Obs::Panic(p)
+                    }
+                    Ok(r) => {
+                        let mut res = conv(r);
+                        if let (true, Ok(r)) = (*rerank, &mut res) {
+                            // `ExtendedDistanceMetric::Cosine.to_similarity` reports (cos + 1) / 2: back to the
+                            // cosine scale the oracle and the model's ingredients are in (monotone, so the
+                            // ranking is judged as it is; the score then within 1e-5, not bit for bit)
+                            for x in r.iter_mut() {
+                                x.1 = 2.0 * x.1 - 1.0;
+                            }
+                        }
+                        match &res {
+                            Ok(r) if mismatch => viol.push(Viol {
+                                site: op.tag().into(),
+                                kind: "query_dimension_not_checked",
+                                what: format!("index over dim-{indexed_dim:?} vectors answered a query of dim {}: {r:?}", q.len()),
+                            }),
+                            Ok(r) => oracle_page(op.tag(), r, q, *k, 0, *k, Metric::Cos, &self.dflt, None, false, true, viol),
+                            Err(_) => {}
+                        }
+                        Obs::Search { res, ann: None }
+                    }
+                }
             }
             Op::Search { q, k } => {
                 let qf = f32s(q);
@@ -818,13 +879,15 @@ fn ann_keys(sp: &Space, q: &[f32], k: usize) -> Option<Vec<String>> {
 /// query's dimension*; then recall is not claimed.
 #[allow(clippy::too_many_arguments)]
 fn oracle(site: &str, res: &[(String, f32)], q: &[i64], k: usize, m: Metric, sp: &Space, filt: Option<&F>, may_use_index: bool, viol: &mut Vec<Viol>) {
-    oracle_page(site, res, q, k, 0, k, m, sp, filt, may_use_index, viol)
+    oracle_page(site, res, q, k, 0, k, m, sp, filt, may_use_index, false, viol)
 }
 
 /// `res` = results `skip .. skip+k` of a search for the `inner_k` best (plain searches: `skip = 0`,
 /// `inner_k = k`)
+/// `fresh_index`: the answer was taken from an index built from the current data just now (explicit-index
+/// entry points): shape, keys and scores are judged, recall is not
 #[allow(clippy::too_many_arguments)]
-fn oracle_page(site: &str, res: &[(String, f32)], q: &[i64], k: usize, skip: usize, inner_k: usize, m: Metric, sp: &Space, filt: Option<&F>, may_use_index: bool, viol: &mut Vec<Viol>) {
+fn oracle_page(site: &str, res: &[(String, f32)], q: &[i64], k: usize, skip: usize, inner_k: usize, m: Metric, sp: &Space, filt: Option<&F>, may_use_index: bool, fresh_index: bool, viol: &mut Vec<Viol>) {
     if q.is_empty() || k == 0 || inner_k == 0 || nsq(q) == 0 {
         return; // outside the property's quantifier (non-zero query, k > 0)
     }
@@ -869,7 +932,7 @@ fn oracle_page(site: &str, res: &[(String, f32)], q: &[i64], k: usize, skip: usi
             }
         }
     }
-    if may_use_index && sp.index_consulted(q.len()) {
+    if fresh_index || (may_use_index && sp.index_consulted(q.len())) {
         return;
     }
     // exact top-k required (no index, or the index is not consulted for a query of this dimension)
@@ -970,7 +1033,7 @@ fn classes(m: Metric, a: i64, cs: &[(String, i64, i64, bool)], merged: &mut u64)
 /// canonical (implementation, model) answer pair for one search + score mismatches
 /// `page`: `(skip, limit, total_count reported)` of a paginated search — the engine's list is then the
 /// slice `skip .. skip+limit` of the inner answer, and `total_count` the inner answer's length
-fn compare_search(rep: &mut Report, stream: &str, op: &Op, res: &Result<Vec<(String, f32)>, String>, ma: &MAns, page: Option<(usize, Option<usize>, usize)>) -> (String, String) {
+fn compare_search(rep: &mut Report, stream: &str, op_line: &str, res: &Result<Vec<(String, f32)>, String>, ma: &MAns, page: Option<(usize, Option<usize>, usize)>) -> (String, String) {
     let imp_res = match res {
         Err(e) => return (format!("err {e}"), ma.kind.clone()),
         Ok(r) => r,
@@ -998,7 +1061,7 @@ fn compare_search(rep: &mut Report, stream: &str, op: &Op, res: &Result<Vec<(Str
             } else {
                 rep.disagree(
                     &format!("{stream}.score"),
-                    json!({"op": op.line(), "key": key}),
+                    json!({"op": op_line, "key": key}),
                     &format!("{sc}"),
                     &format!("{} (p={}, r={}, A={})", score_f64(ma.m, ma.a, c.1, c.2), c.1, c.2, ma.a),
                 );
@@ -1080,6 +1143,13 @@ impl Gen {
         g.small = g.r.chance(1, 3);
         let nk = 2 + g.r.below(11);
         g.keys = (0..nk).map(|i| format!("k{i}")).collect();
+        // keys that themselves start with the storage prefix, next to the key they would collapse
+        // into if the prefix were stripped once too often (4fa63773)
+        if g.r.chance(1, 3) {
+            for i in 0..(1 + g.r.below(2)).min(nk) {
+                g.keys.push(format!("emb:k{i}"));
+            }
+        }
         g.colls = vec!["c0".into(), "c1".into(), "c2".into()];
         g
     }
@@ -1277,11 +1347,20 @@ fn gen_seq(g: &mut Gen, focus: u64, rep: &mut Report) -> Vec<Op> {
                     let limit = *g.r.pick(&[None, Some(0usize), Some(1), Some(2), Some(2), Some(5)]);
                     Op::SearchP { q, k: g.k(), skip, limit }
                 }
-                72..=83 => {
+                72..=80 => {
                     let (q, kind) = g.query(&pool);
                     rep.hit(&format!("q.{kind}"));
                     let m = *g.r.pick(&[Metric::Cos, Metric::Euc, Metric::Dot]);
                     Op::SearchM { m, q, k: g.k() }
+                }
+                81..=83 => {
+                    // explicit-index entry points (no zero-query shortcut there: non-zero queries only)
+                    let (mut q, kind) = g.query(&pool);
+                    rep.hit(&format!("q.{kind}"));
+                    if !q.is_empty() && nsq(&q) == 0 {
+                        q[0] = 1;
+                    }
+                    Op::HSearch { q, k: g.k(), rerank: g.r.chance(1, 3) }
                 }
                 _ => {
                     let (q, kind) = g.query(&pool);
@@ -1381,7 +1460,20 @@ fn replay_kinds(ops: &[Op]) -> Vec<(usize, String, &'static str)> {
 fn classify(ops: &[Op], at: usize, site: &str, kind: &str) -> String {
     let space_of = |op: &Op| -> Option<String> {
         match op {
-            Op::Store { .. } | Op::StoreMeta { .. } | Op::Del { .. } | Op::BatchDel { .. } | Op::Clear | Op::Build { .. } | Op::Search { .. } | Op::SearchF { .. } | Op::SearchM { .. } | Op::BatchStore { .. } | Op::SearchP { .. } | Op::UpdMeta { .. } | Op::RmField { .. } => {
+            Op::Store { .. }
+            | Op::StoreMeta { .. }
+            | Op::Del { .. }
+            | Op::BatchDel { .. }
+            | Op::Clear
+            | Op::Build { .. }
+            | Op::Search { .. }
+            | Op::SearchF { .. }
+            | Op::SearchM { .. }
+            | Op::BatchStore { .. }
+            | Op::SearchP { .. }
+            | Op::UpdMeta { .. }
+            | Op::RmField { .. }
+            | Op::HSearch { .. } => {
                 Some(String::new())
             }
             Op::Drop { c } | Op::CStore { c, .. } | Op::CDel { c, .. } | Op::CBuild { c } | Op::CSearch { c, .. } | Op::CSearchF { c, .. } => Some(format!("c:{c}")),
@@ -1392,7 +1484,8 @@ fn classify(ops: &[Op], at: usize, site: &str, kind: &str) -> String {
     let sp = space_of(&ops[at]);
     let last_build = (0..at).rev().find(|i| matches!(ops[*i], Op::Build { .. } | Op::CBuild { .. }) && space_of(&ops[*i]) == sp);
     if let Some(b) = last_build {
-        if !matches!(ops[at], Op::SearchM { .. }) {
+        // (neither `search_similar_with_metric` nor the explicit-index entry points read the cache)
+        if !matches!(ops[at], Op::SearchM { .. } | Op::HSearch { .. }) {
             if let Some(mu) = (b + 1..at).find(|i| ops[*i].is_mutation() && space_of(&ops[*i]) == sp) {
                 // Confirm by experiment before charging a mutation.  Tie order in the store differs from
                 // engine instance to engine instance, so a violation that depends on it (a post-filter
@@ -1523,14 +1616,26 @@ fn run_seq(cx: &mut Ctx, stream: &str, ops: &[Op]) {
                     if let Some((sp, q, k, skip, inner)) = probe {
                         if sp.index_consulted(q.len()) && sp.items.len() <= 32 {
                             let mut scratch = Vec::new();
-                            oracle_page("small-index", v, q, k, skip, inner, Metric::Cos, sp, None, false, &mut scratch);
+                            oracle_page("small-index", v, q, k, skip, inner, Metric::Cos, sp, None, false, false, &mut scratch);
                             let exact = !scratch.iter().any(|x| x.kind == "missed_match" || x.kind == "not_topk");
                             cx.rep.hit("search.small_live_index.checked_exact");
                             cx.rep.compare(&format!("{stream}.small_index_is_exact"), || json!({"ops": ops_json(&ops[..=i]), "impl_result": format!("{res:?}")}), if exact { "exact" } else { "not-exact" }, "exact");
                         }
                     }
                 }
-                let (a, b) = compare_search(cx.rep, stream, op, res, &ma, page);
+                // explicit-index entry points: the index was built from the current data just now, so with
+                // at most 32 vectors the answer must be the exact top-k (small_index_search_is_exact)
+                if let (Op::HSearch { q, k, .. }, Ok(v)) = (op, res) {
+                    let sp = &r.dflt;
+                    if nsq(q) > 0 && *k > 0 && sp.items.len() <= 32 && sp.items.values().next().map_or(false, |x| x.0.len() == q.len()) {
+                        let mut scratch = Vec::new();
+                        oracle_page("small-index", v, q, *k, 0, *k, Metric::Cos, sp, None, false, false, &mut scratch);
+                        let exact = !scratch.iter().any(|x| x.kind == "missed_match" || x.kind == "not_topk");
+                        cx.rep.hit("search.explicit_small_index.checked_exact");
+                        cx.rep.compare(&format!("{stream}.small_index_is_exact"), || json!({"ops": ops_json(&ops[..=i]), "impl_result": format!("{res:?}")}), if exact { "exact" } else { "not-exact" }, "exact");
+                    }
+                }
+                let (a, b) = compare_search(cx.rep, stream, &op.line(), res, &ma, page);
                 let sname = format!("{stream}.{}", op.tag());
                 cx.rep.compare(&sname, || json!({"ops": ops_json(&ops[..=i]), "impl_result": format!("{res:?}"), "model_raw": ma.raw}), &a, &b);
             }
@@ -1583,7 +1688,18 @@ fn directed() -> Vec<(&'static str, Vec<Op>)> {
         md: md.iter().map(|(a, b)| (a.to_string(), *b)).collect(),
     };
     let pf_md = |v: i64| -> Md { vec![("f".to_string(), v)] };
+    let hs = |q: &[i64], k: usize, rerank: bool| Op::HSearch { q: q.to_vec(), k, rerank };
     vec![
+        // regression cases of 733b279c: the explicit-index entry points must refuse a query of another
+        // dimension than the index (longer: scored on a prefix before the fix; shorter: panicked)
+        ("explicit-index-longer-query", vec![s("a", &[1, 0, 0]), s("b", &[0, 1, 0]), hs(&[1, 0, 0], 2, false), hs(&[1, 0, 0, 5], 2, false), hs(&[0, 1, 0], 2, false)]),
+        ("explicit-index-shorter-query", vec![s("a", &[1, 0, 0]), s("b", &[0, 1, 0]), hs(&[1, 0], 2, false), hs(&[0, 1, 0], 1, false)]),
+        ("explicit-index-rerank-longer-query", vec![s("a", &[1, 0, 0]), s("b", &[0, 1, 0]), hs(&[1, 0, 0], 2, true), hs(&[1, 0, 0, 5], 2, true), hs(&[0, 1, 0], 2, true)]),
+        ("explicit-index-rerank-shorter-query", vec![s("a", &[1, 0, 0]), s("b", &[0, 1, 0]), hs(&[1, 0], 2, true), hs(&[0, 1, 0], 1, true)]),
+        (
+            "explicit-index-arguments",
+            vec![hs(&[1, 0], 2, false), s("a", &[1, 0, 0]), hs(&[], 2, false), hs(&[1, 0, 0], 0, false), s("b", &[0, 1]), hs(&[1, 0, 0], 2, false), hs(&[1, 0], 2, true)],
+        ),
         // the two KNOWN FINDINGS (post-filter with a truncated oversample pool) are reproduced
         // first, deterministically, so that their classes are reported from these traces on every run
         (
@@ -1994,72 +2110,467 @@ fn hnsw_stream(rep: &mut Report, m: &mut Model, root: &Rng, scale: u64) {
 }
 
 
-/// Inputs outside the run's key / name alphabet (`[a-z0-9]+`) and the explicit-index entry points:
-/// what the real engine does is recorded, not judged (candidate findings are reported to the
-/// coordinator; until they are decided these stay observations).
-fn observe_namespaces(rep: &mut Report) {
-    // (1) a key that itself starts with `emb:`: the cached-index path strips the storage prefix
-    //     from keys that `list_keys` has already stripped once
-    let eng = VectorEngine::new();
-    eng.store_embedding("emb:x", vec![1.0, 0.0]).ok();
-    eng.store_embedding("x", vec![0.0, 1.0]).ok();
-    let brute = conv(eng.search_similar(&[1.0, 0.0], 1));
-    eng.build_and_cache_index(HNSWConfig::default()).ok();
-    let cached = conv(eng.search_similar(&[1.0, 0.0], 1));
-    rep.observe(json!({
-        "what": "keys 'emb:x' = [1,0] and 'x' = [0,1]; search_similar([1,0], 1) without and with a cached index (the cached path applies strip_prefix(\"emb:\") to keys that are already bare)",
-        "class_if_judged": "vector_engine.search_similar/cached_index_strips_key_prefix",
-        "brute_force": format!("{brute:?}"),
-        "with_cached_index": format!("{cached:?}"),
-        "same_key": brute.as_ref().ok().and_then(|b| b.first().map(|x| x.0.clone())) == cached.as_ref().ok().and_then(|b| b.first().map(|x| x.0.clone())),
-    }));
-    // (2) a named collection called `_default` shares the cache slot of the default collection
-    let eng = VectorEngine::new();
-    eng.store_in_collection("_default", "incoll", vec![0.0, 1.0]).ok();
-    eng.store_embedding("indefault", vec![1.0, 0.0]).ok();
-    let before = conv(eng.search_in_collection("_default", &[0.0, 1.0], 5));
-    eng.build_and_cache_index(HNSWConfig::default()).ok();
-    let after = conv(eng.search_in_collection("_default", &[0.0, 1.0], 5));
-    rep.observe(json!({
-        "what": "collection '_default' holds key 'incoll'; default collection holds 'indefault'; build_and_cache_index() (default collection), then search_in_collection('_default', ..): the cache entry name of the default collection is a legal collection name",
-        "class_if_judged": "vector_engine.search_in_collection/default_cache_slot_shared",
-        "before_build": format!("{before:?}"),
-        "after_build": format!("{after:?}"),
-        "returns_key_of_other_collection": after.as_ref().map_or(false, |r| r.iter().any(|x| x.0 == "indefault")),
-    }));
-    // (3) collection names containing the storage separator: `a` and `a:emb:b` overlap
-    let eng = VectorEngine::new();
-    eng.store_in_collection("a:emb:b", "k", vec![1.0, 0.0]).ok();
-    let leak = conv(eng.search_in_collection("a", &[1.0, 0.0], 5));
-    rep.observe(json!({
-        "what": "store_in_collection('a:emb:b', 'k', ..) then search_in_collection('a', ..): storage keys are 'coll:<name>:emb:<key>' with no escaping",
-        "class_if_judged": "vector_engine.search_in_collection/collection_prefix_overlap",
-        "search_in_a": format!("{leak:?}"),
-    }));
-    // (4) search_with_hnsw / search_with_hnsw_and_metric hand the query to the index unchecked
-    //     (the cached path checks the dimension since 768f5ff8; the explicit path does not)
-    let eng = VectorEngine::new();
-    eng.store_embedding("a", vec![1.0, 0.0, 0.0]).ok();
-    eng.store_embedding("b", vec![0.0, 1.0, 0.0]).ok();
-    if let Ok((idx, keys)) = eng.build_hnsw_index(HNSWConfig::default()) {
-        let same = guarded(AssertUnwindSafe(|| conv(eng.search_with_hnsw(&idx, &keys, &[1.0, 0.0, 0.0], 2))));
-        let longer = guarded(AssertUnwindSafe(|| conv(eng.search_with_hnsw(&idx, &keys, &[1.0, 0.0, 0.0, 5.0], 2))));
-        let shorter = guarded(AssertUnwindSafe(|| conv(eng.search_with_hnsw(&idx, &keys, &[1.0, 0.0], 2))));
-        rep.observe(json!({
-            "what": "search_with_hnsw(index over dim-3 vectors, query of dim 3 / 4 / 2)",
-            "class_if_judged": "vector_engine.search_with_hnsw/query_dimension_not_checked",
-            "dim3": format!("{same:?}"),
-            "dim4": format!("{longer:?}"),
-            "dim2": format!("{shorter:?}"),
-        }));
-        // contract of the explicit path on a well-dimensioned query: keys of the mapping, true scores, <= k, distinct
-        if let Ok(Ok(r)) = &same {
-            let ok = r.len() <= 2 && r.iter().map(|x| &x.0).collect::<BTreeSet<_>>().len() == r.len() && r.iter().all(|x| keys.contains(&x.0));
-            rep.hit(if ok { "explicit_index.shape_ok" } else { "explicit_index.shape_BAD" });
+// ------------------------------------------------------------------ the storage-key layer
+//
+// Keys and collection names outside `[a-z0-9]+`: every collection lives in ONE flat store, told apart
+// by the key prefixes `emb:` / `coll:<name>:emb:`, and every cached index in ONE map keyed by a slot
+// name (`_default` for the default collection, the collection's name otherwise).  The Lean model of
+// that layer is `NsModel.lean` (driver commands `ns ..`); the oracle below is the property itself,
+// evaluated against what was stored THROUGH THE API in the collection that is searched.
+
+#[derive(Clone, Debug)]
+enum NsOp {
+    Store { key: String, v: Vec<i64> },
+    Del { key: String },
+    CStore { c: String, key: String, v: Vec<i64> },
+    CDel { c: String, key: String },
+    /// `build_and_cache_index`
+    Build,
+    /// what a user of `cache_hnsw_index(c, ..)` does: index the vectors of `list_collection_keys(c)`
+    /// and cache them under their storage keys in slot `c`
+    CBuild { c: String },
+    /// `invalidate_hnsw_cache(slot)`
+    Inval { slot: String },
+    Keys,
+    CKeys { c: String },
+    Get { key: String },
+    CGet { c: String, key: String },
+    Search { q: Vec<i64>, k: usize },
+    CSearch { c: String, q: Vec<i64>, k: usize },
+}
+impl NsOp {
+    fn line(&self) -> String {
+        match self {
+            NsOp::Store { key, v } => format!("ns store {key} {}", ints(v)),
+            NsOp::Del { key } => format!("ns del {key}"),
+            NsOp::CStore { c, key, v } => format!("ns cstore {c} {key} {}", ints(v)),
+            NsOp::CDel { c, key } => format!("ns cdel {c} {key}"),
+            NsOp::Build => "ns build".into(),
+            NsOp::CBuild { c } => format!("ns cbuild {c}"),
+            NsOp::Inval { slot } => format!("ns inval {slot}"),
+            NsOp::Keys => "ns keys".into(),
+            NsOp::CKeys { c } => format!("ns ckeys {c}"),
+            NsOp::Get { key } => format!("ns get {key}"),
+            NsOp::CGet { c, key } => format!("ns cget {c} {key}"),
+            NsOp::Search { q, k } => format!("ns search {} {k}", ints(q)),
+            NsOp::CSearch { c, q, k } => format!("ns csearch {c} {} {k}", ints(q)),
+        }
+    }
+    fn tag(&self) -> &'static str {
+        match self {
+            NsOp::Store { .. } => "store_embedding",
+            NsOp::Del { .. } => "delete_embedding",
+            NsOp::CStore { .. } => "store_in_collection",
+            NsOp::CDel { .. } => "delete_from_collection",
+            NsOp::Build => "build_and_cache_index",
+            NsOp::CBuild { .. } => "cache_hnsw_index",
+            NsOp::Inval { .. } => "invalidate_hnsw_cache",
+            NsOp::Keys => "list_keys",
+            NsOp::CKeys { .. } => "list_collection_keys",
+            NsOp::Get { .. } => "get_embedding",
+            NsOp::CGet { .. } => "get_from_collection",
+            NsOp::Search { .. } => "search_similar",
+            NsOp::CSearch { .. } => "search_in_collection",
         }
     }
 }
 
+/// `(collection, key)`; `None` = the default collection
+type NsKey = (Option<String>, String);
+
+struct NsRunner {
+    eng: VectorEngine,
+    /// what is stored now, as the API was told: the intended contents of every collection
+    shadow: BTreeMap<NsKey, Vec<i64>>,
+    /// every `(collection, key)` ever stored (a deleted alias can survive in a cached index)
+    ever: BTreeSet<NsKey>,
+    /// `build_and_cache_index` succeeded and neither the default collection nor anything that
+    /// invalidates slot `_default` has been written since
+    default_index_live: bool,
+}
+
+enum NsObs {
+    Plain(String),
+    Search(Result<Vec<(String, f32)>, String>),
+}
+
+fn ns_score_matches(q: &[i64], v: &[i64], sc: f32) -> bool {
+    if v.len() != q.len() {
+        return false;
+    }
+    let a = nsq(q);
+    let (p, r) = ingredients(Metric::Cos, q, v);
+    sc.to_bits() == score_f32_brute(Metric::Cos, a, p, r).to_bits() || sc.to_bits() == score_f32_hnsw(a, p, r).to_bits() || within_tol(sc, score_f64(Metric::Cos, a, p, r))
+}
+
+impl NsRunner {
+    fn new() -> NsRunner {
+        NsRunner { eng: VectorEngine::new(), shadow: BTreeMap::new(), ever: BTreeSet::new(), default_index_live: false }
+    }
+    fn space_of(&self, c: &Option<String>) -> Space {
+        let mut sp = Space::default();
+        for ((cc, k), v) in &self.shadow {
+            if cc == c {
+                sp.items.insert(k.clone(), (v.clone(), vec![]));
+            }
+        }
+        sp
+    }
+    /// writing collection `c` invalidates slot `c`
+    fn wrote(&mut self, c: &Option<String>) {
+        if c.is_none() || c.as_deref() == Some("_default") {
+            self.default_index_live = false;
+        }
+    }
+    /// The kind of a failed search oracle, computed from the answer and the history:
+    ///  * `search_similar` with a live default index reports `r` where the stored key is `emb:r`
+    ///    (scored with `emb:r`'s vector): the storage prefix was stripped from a bare key;
+    ///  * `search_in_collection(c)` reports a key that was never stored in `c` and
+    ///    - some `(c2, k2)`, `c2 != c`, that WAS stored has the same storage key: the names overlap;
+    ///    - `c` is `_default`, the default collection's index is live and the key belongs to the
+    ///      default collection: the cache slot is shared (confirmed by replay with an invalidation);
+    ///  * otherwise the generic kind the oracle gave.
+    fn ns_kind(&self, c: &Option<String>, q: &[i64], res: &[(String, f32)], generic: &'static str) -> &'static str {
+        for (rk, sc) in res {
+            let own = self.shadow.get(&(c.clone(), rk.clone())).map_or(false, |v| ns_score_matches(q, v, *sc));
+            if own {
+                continue;
+            }
+            match c {
+                None => {
+                    let with_prefix = (None, format!("emb:{rk}"));
+                    if self.default_index_live && self.shadow.get(&with_prefix).map_or(false, |v| ns_score_matches(q, v, *sc)) {
+                        return "cached_index_strips_key_prefix";
+                    }
+                }
+                Some(cn) => {
+                    let sk = format!("coll:{cn}:emb:{rk}");
+                    if self.ever.iter().any(|(c2, k2)| c2.as_ref().map_or(false, |c2| c2 != cn && format!("coll:{c2}:emb:{k2}") == sk)) {
+                        return "collection_prefix_overlap";
+                    }
+                    let bare = rk.strip_prefix("emb:").unwrap_or(rk).to_string();
+                    if cn == "_default" && self.default_index_live && (self.ever.contains(&(None, bare)) || self.ever.contains(&(None, rk.clone()))) {
+                        return "default_cache_slot_shared";
+                    }
+                }
+            }
+        }
+        generic
+    }
+    fn search(&mut self, site: &'static str, c: Option<String>, q: &[i64], k: usize, viol: &mut Vec<Viol>) -> NsObs {
+        let qf = f32s(q);
+        let eng = &self.eng;
+        let call = guarded(AssertUnwindSafe(|| match &c {
+            None => eng.search_similar(&qf, k),
+            Some(cn) => eng.search_in_collection(cn, &qf, k),
+        }));
+        match call {
+            Err(p) => {
+                viol.push(Viol { site: site.into(), kind: "panic", what: p.clone() });
+                NsObs::Plain(format!("panic: {p}"))
+            }
+            Ok(r) => {
+                let res = conv(r);
+                if let Ok(r) = &res {
+                    // the collection holds few vectors: a cached index over them is exact
+                    // (small_index_search_is_exact), so the exact top-k is required on every path
+                    let sp = self.space_of(&c);
+                    let mut found = Vec::new();
+                    oracle_page(site, r, q, k, 0, k, Metric::Cos, &sp, None, false, false, &mut found);
+                    if let Some(first) = found.into_iter().next() {
+                        let kind = self.ns_kind(&c, q, r, first.kind);
+                        viol.push(Viol { site: site.into(), kind, what: format!("{}: {} (answer {r:?}; stored in the searched collection through the API: {:?})", first.kind, first.what, sp.items.keys().collect::<Vec<_>>()) });
+                    }
+                }
+                NsObs::Search(res)
+            }
+        }
+    }
+    fn exec(&mut self, op: &NsOp, viol: &mut Vec<Viol>) -> NsObs {
+        let plain = |r: Result<(), VectorError>| NsObs::Plain(match r {
+            Ok(()) => "ok".to_string(),
+            Err(e) => format!("err {}", verr(&e)),
+        });
+        let show = |r: Result<Vec<f32>, VectorError>| NsObs::Plain(match r {
+            Ok(v) => format!("ok {}", to_ints(&v).map_or("non-integer".to_string(), |x| ints(&x))),
+            Err(e) => format!("err {}", verr(&e)),
+        });
+        let keys = |mut ks: Vec<String>| {
+            ks.sort();
+            NsObs::Plain(format!("ok {}", ks.join(",")).trim_end().to_string())
+        };
+        match op {
+            NsOp::Store { key, v } => {
+                let r = self.eng.store_embedding(key, f32s(v));
+                if r.is_ok() {
+                    self.shadow.insert((None, key.clone()), v.clone());
+                    self.ever.insert((None, key.clone()));
+                    self.wrote(&None);
+                }
+                plain(r)
+            }
+            NsOp::Del { key } => {
+                let r = self.eng.delete_embedding(key);
+                if r.is_ok() {
+                    self.shadow.remove(&(None, key.clone()));
+                    self.wrote(&None);
+                }
+                plain(r)
+            }
+            NsOp::CStore { c, key, v } => {
+                let r = self.eng.store_in_collection(c, key, f32s(v));
+                if r.is_ok() {
+                    self.shadow.insert((Some(c.clone()), key.clone()), v.clone());
+                    self.ever.insert((Some(c.clone()), key.clone()));
+                    self.wrote(&Some(c.clone()));
+                }
+                plain(r)
+            }
+            NsOp::CDel { c, key } => {
+                let r = self.eng.delete_from_collection(c, key);
+                if r.is_ok() {
+                    self.shadow.remove(&(Some(c.clone()), key.clone()));
+                    self.wrote(&Some(c.clone()));
+                }
+                plain(r)
+            }
+            NsOp::Build => {
+                if self.eng.build_and_cache_index(HNSWConfig::default()).is_ok() {
+                    self.default_index_live = true;
+                }
+                NsObs::Plain("ok".into())
+            }
+            NsOp::CBuild { c } => {
+                let ks = self.eng.list_collection_keys(c);
+                let vecs: Vec<Vec<f32>> = ks.iter().map(|k| self.eng.get_from_collection(c, k).unwrap_or_default()).collect();
+                if !vecs.windows(2).any(|w| w[0].len() != w[1].len()) {
+                    let idx = HNSWIndex::with_config(HNSWConfig::default());
+                    for v in &vecs {
+                        idx.insert(v.clone());
+                    }
+                    self.eng.cache_hnsw_index(c, Arc::new(idx), ks.iter().map(|k| format!("coll:{c}:emb:{k}")).collect());
+                }
+                NsObs::Plain("ok".into())
+            }
+            NsOp::Inval { slot } => {
+                self.eng.invalidate_hnsw_cache(slot);
+                if slot == "_default" {
+                    self.default_index_live = false;
+                }
+                NsObs::Plain("ok".into())
+            }
+            NsOp::Keys => keys(self.eng.list_keys()),
+            NsOp::CKeys { c } => keys(self.eng.list_collection_keys(c)),
+            NsOp::Get { key } => show(self.eng.get_embedding(key)),
+            NsOp::CGet { c, key } => show(self.eng.get_from_collection(c, key)),
+            NsOp::Search { q, k } => self.search(op.tag(), None, q, *k, viol),
+            NsOp::CSearch { c, q, k } => self.search(op.tag(), Some(c.clone()), q, *k, viol),
+        }
+    }
+}
+
+/// oracle-only replay on a fresh engine: (op index, site, kind) of every violation
+fn ns_replay(ops: &[NsOp]) -> Vec<(usize, String, &'static str)> {
+    let mut r = NsRunner::new();
+    let mut out = Vec::new();
+    for (i, op) in ops.iter().enumerate() {
+        let mut v = Vec::new();
+        let _ = guarded(AssertUnwindSafe(|| r.exec(op, &mut v)));
+        for x in v {
+            out.push((i, x.site, x.kind));
+        }
+    }
+    out
+}
+
+fn ns_ops_json(ops: &[NsOp]) -> Value {
+    json!(ops.iter().map(|o| o.line()).collect::<Vec<_>>())
+}
+
+/// model answers to `ns keys` / `ns ckeys` come in store order: sort like the engine's are sorted
+fn canon_keys(ans: &str) -> String {
+    match ans.strip_prefix("ok ") {
+        Some(t) => {
+            let mut ks: Vec<&str> = t.split(',').collect();
+            ks.sort();
+            format!("ok {}", ks.join(",")).trim_end().to_string()
+        }
+        None => ans.to_string(),
+    }
+}
+
+fn run_ns(cx: &mut Ctx, stream: &str, ops: &[NsOp]) {
+    let mut r = NsRunner::new();
+    cx.m.ask("ns reset");
+    let mut first: Option<(usize, String, &'static str, String)> = None;
+    let (mut mutated, mut nontrivial) = (false, false);
+    for (i, op) in ops.iter().enumerate() {
+        let mut viol = Vec::new();
+        let obs = match guarded(AssertUnwindSafe(|| r.exec(op, &mut viol))) {
+            Ok(o) => o,
+            Err(p) => {
+                viol.push(Viol { site: op.tag().into(), kind: "panic", what: p.clone() });
+                NsObs::Plain(format!("panic: {p}"))
+            }
+        };
+        cx.rep.hit(&format!("ns.op.{}", op.tag()));
+        let ans = cx.m.ask(&op.line());
+        let sname = format!("{stream}.{}", op.tag());
+        match &obs {
+            NsObs::Plain(s) => {
+                if s == "ok" && matches!(op, NsOp::Store { .. } | NsOp::CStore { .. } | NsOp::Del { .. } | NsOp::CDel { .. }) {
+                    mutated = true;
+                }
+                let model = if matches!(op, NsOp::Keys | NsOp::CKeys { .. }) { canon_keys(&ans) } else { ans.clone() };
+                cx.rep.compare(&sname, || json!({"ops": ns_ops_json(&ops[..=i])}), s, &model);
+            }
+            NsObs::Search(res) => {
+                let ma = parse_model(&ans);
+                cx.rep.hit(&format!("ns.model.{}", ma.kind.split(' ').next().unwrap_or("")));
+                if res.as_ref().map_or(false, |v| !v.is_empty()) {
+                    nontrivial = true;
+                }
+                let (a, b) = compare_search(cx.rep, stream, &op.line(), res, &ma, None);
+                cx.rep.compare(&sname, || json!({"ops": ns_ops_json(&ops[..=i]), "impl_result": format!("{res:?}"), "model_raw": ma.raw}), &a, &b);
+            }
+        }
+        if first.is_none() {
+            if let Some(v) = viol.into_iter().next() {
+                first = Some((i, v.site, v.kind, v.what));
+            }
+        }
+    }
+    let key = ops.iter().map(|o| o.line()).collect::<Vec<_>>().join(";");
+    cx.rep.case(stream, if nontrivial && mutated { Some(&key) } else { None });
+    if let Some((at, site, kind, what)) = first {
+        cx.rep.hit(&format!("violation.{kind}"));
+        let mut fails = |cand: &[NsOp]| ns_replay(cand).iter().any(|(_, _, k)| *k == kind);
+        let shrunk = shrink_list(&ops[..=at], &mut fails);
+        let ks = ns_replay(&shrunk);
+        let (sat, ssite, mut skind) = ks.iter().find(|(_, _, k)| *k == kind).cloned().unwrap_or((shrunk.len() - 1, site, kind));
+        if skind == "default_cache_slot_shared" {
+            // confirm by experiment: with the default collection's slot emptied right before the
+            // search, the same search must pass
+            let mut with_inval: Vec<NsOp> = shrunk[..sat].to_vec();
+            with_inval.push(NsOp::Inval { slot: "_default".into() });
+            with_inval.push(shrunk[sat].clone());
+            if ns_replay(&with_inval).iter().any(|(i, _, _)| *i == with_inval.len() - 1) {
+                skind = "returned_foreign_key";
+            }
+        }
+        let class = format!("vector_engine.{ssite}/{skind}");
+        if cx.reported.insert(class.clone()) {
+            cx.rep.violation(&class, &what, json!({"ops": ns_ops_json(&shrunk[..=sat]), "found_in_stream": stream}));
+        } else {
+            cx.rep.hit(&format!("violation.repeat.{class}"));
+        }
+    }
+}
+
+/// Directed cases of the storage-key layer; they run before everything else on every run.
+fn ns_directed() -> Vec<(&'static str, Vec<NsOp>)> {
+    let st = |k: &str, v: &[i64]| NsOp::Store { key: k.into(), v: v.to_vec() };
+    let cst = |c: &str, k: &str, v: &[i64]| NsOp::CStore { c: c.into(), key: k.into(), v: v.to_vec() };
+    let se = |q: &[i64], k: usize| NsOp::Search { q: q.to_vec(), k };
+    let cse = |c: &str, q: &[i64], k: usize| NsOp::CSearch { c: c.into(), q: q.to_vec(), k };
+    vec![
+        // regression case of 4fa63773: a key that itself starts with the storage prefix, next to the key
+        // it collapses into; the answer through the cached index must name the key that was indexed
+        (
+            "cached-index-key-prefix",
+            vec![st("emb:x", &[1, 0]), st("x", &[0, 1]), se(&[1, 0], 1), NsOp::Build, se(&[1, 0], 1), se(&[0, 1], 2), NsOp::Keys, NsOp::Get { key: "emb:x".into() }, NsOp::Get { key: "x".into() }],
+        ),
+        (
+            "cached-index-key-prefix-twice",
+            vec![st("emb:emb:x", &[1, 0, 0]), st("emb:x", &[0, 1, 0]), st("x", &[0, 0, 1]), NsOp::Build, se(&[1, 0, 0], 1), se(&[0, 1, 0], 1), se(&[0, 0, 1], 3)],
+        ),
+        // the same shape in a named collection (index cached under storage keys by its owner)
+        (
+            "collection-cached-index-key-prefix",
+            vec![cst("c0", "coll:c0:emb:x", &[1, 0]), cst("c0", "x", &[0, 1]), NsOp::CBuild { c: "c0".into() }, cse("c0", &[1, 0], 1), cse("c0", &[0, 1], 2), NsOp::CKeys { c: "c0".into() }],
+        ),
+        // KNOWN FINDING vector_engine.search_in_collection/default_cache_slot_shared
+        (
+            "default-cache-slot-shared",
+            vec![cst("_default", "incoll", &[0, 1]), st("indefault", &[1, 0]), cse("_default", &[0, 1], 5), NsOp::Build, cse("_default", &[0, 1], 5), se(&[0, 1], 5)],
+        ),
+        // KNOWN FINDING vector_engine.search_in_collection/collection_prefix_overlap
+        (
+            "collection-prefix-overlap",
+            vec![cst("a:emb:b", "k", &[1, 0]), NsOp::CKeys { c: "a".into() }, cse("a", &[1, 0], 5), NsOp::CGet { c: "a".into(), key: "b:emb:k".into() }, cse("a:emb:b", &[1, 0], 5)],
+        ),
+        // names without the separator never overlap (collections_disjoint_without_separator), whatever the keys
+        (
+            "separator-free-names",
+            vec![
+                cst("a", "k", &[1, 0]),
+                cst("ab", "k", &[0, 1]),
+                cst("a", "emb:k", &[1, 1]),
+                st("k", &[2, 1]),
+                st("coll:a:emb:k", &[1, 2]),
+                NsOp::Build,
+                NsOp::CBuild { c: "a".into() },
+                cse("a", &[1, 0], 5),
+                cse("ab", &[1, 0], 5),
+                se(&[1, 0], 5),
+                NsOp::CKeys { c: "a".into() },
+                NsOp::Keys,
+            ],
+        ),
+    ]
+}
+
+/// random sequences over an alphabet built to collide: keys / names that contain the storage
+/// prefixes, the separator and the default slot's name
+fn ns_gen(r: &mut Rng) -> Vec<NsOp> {
+    const KEYS: [&str; 7] = ["x", "emb:x", "k", "b:emb:k", "emb:k", "coll:a:emb:k", "y"];
+    const COLLS: [&str; 6] = ["a", "a:emb:b", "a:emb", "_default", "c0", "ab"];
+    let dim = 2 + r.below(2) as usize;
+    let vecr = |r: &mut Rng| -> Vec<i64> {
+        loop {
+            let d = if r.chance(1, 10) { 5 - dim } else { dim };
+            let v: Vec<i64> = (0..d).map(|_| r.range(-3, 3)).collect();
+            if nsq(&v) > 0 {
+                return v;
+            }
+        }
+    };
+    let n = 8 + r.below(18) as usize;
+    let mut ops = Vec::new();
+    while ops.len() < n {
+        let key = r.pick(&KEYS).to_string();
+        let c = r.pick(&COLLS).to_string();
+        let k = *r.pick(&[1usize, 2, 5, 5]);
+        let op = match r.below(100) {
+            0..=14 => NsOp::Store { key, v: vecr(r) },
+            15..=39 => NsOp::CStore { c, key, v: vecr(r) },
+            40..=43 => NsOp::Del { key },
+            44..=48 => NsOp::CDel { c, key },
+            49..=58 => NsOp::Build,
+            // slot `_default` is documented as the default collection's: the harness, as a caller of
+            // `cache_hnsw_index`, does not put another collection's index there
+            59..=66 if c != "_default" => NsOp::CBuild { c },
+            67..=68 => NsOp::Inval { slot: if r.chance(1, 2) { "_default".to_string() } else { c } },
+            69..=71 => NsOp::Keys,
+            72..=75 => NsOp::CKeys { c },
+            76..=78 => NsOp::Get { key },
+            79..=81 => NsOp::CGet { c, key },
+            82..=88 => NsOp::Search { q: vecr(r), k },
+            _ => NsOp::CSearch { c, q: vecr(r), k },
+        };
+        ops.push(op);
+    }
+    ops
+}
+
+fn ns_stream(cx: &mut Ctx, root: &Rng, scale: u64) {
+    let base = root.fork("ns");
+    for i in 0..300 * scale {
+        let mut r = base.fork(&i.to_string());
+        let ops = ns_gen(&mut r);
+        run_ns(cx, "ns", &ops);
+    }
+}
 
 /// Outside the quantifier (the property speaks of operation SEQUENCES): two real threads under the
 /// deterministic scheduler.  `build_and_cache_index` reads the vectors, builds, then caches, without
@@ -2194,23 +2705,31 @@ fn main() {
     std::panic::set_hook(Box::new(|_| {})); // engine panics are caught and reported, not printed
     let mut rep = Report::new(
         "seeded random op sequences (store / overwrite / batch-store / delete / batch-delete / clear / update-metadata / \
-         remove-metadata-field / build-index / search with every metric / filtered search / paginated search, default and named \
-         collections, sequential and rayon scans) on integer-valued vectors |x|<=64, dim<=16; a sequence is \
+         remove-metadata-field / build-index / search with every metric / filtered search / paginated search / explicit-index search, \
+         default and named collections, sequential and rayon scans) on integer-valued vectors |x|<=64, dim<=16; ns: op sequences over \
+         colliding key / collection-name strings on the flat store and the cache slots; a sequence is \
          non-trivial when it has >=1 successful mutation and >=1 search with a non-empty result; distinct = distinct op text. \
          bits: random f32 bit patterns, non-trivial when not all +0.0. hnsw: a real HNSWIndex with a small random configuration \
          (m, m0, ef_construction, ml, metric), up to 45 inserts of integer or non-integer vectors with duplicates / zeros / scaled \
          copies, searches with random k and ef interleaved; non-trivial when some search returns more than one node",
     );
     let mut m = Model::spawn(&args.driver);
-    rep.note("model = /repo with a71cd63e (every mutation invalidates the cached index), B1 (cached index consulted only for a query of the indexed dimension) and B2 (collection pre-filter scores with the collection's metric); post-filter search is modelled as it is (oversample, then filter) and its misses are reported by the oracle as the known findings vector_engine.search_similar_filtered/not_topk and vector_engine.search_filtered_in_collection/not_topk (directed reproductions run first)");
+    rep.note("model = /repo with a71cd63e (every mutation invalidates the cached index), B1 = 768f5ff8 (cached index consulted only for a query of the indexed dimension), B2 = b8d4bd8e (collection pre-filter scores with the collection's metric), 4fa63773 (build_and_cache_index caches storage keys) and 733b279c (search_with_hnsw / search_with_hnsw_and_metric refuse a query of another dimension than the index); post-filter search is modelled as it is (oversample, then filter) and its misses are reported by the oracle as the known findings vector_engine.search_similar_filtered/not_topk and vector_engine.search_filtered_in_collection/not_topk (directed reproductions run first)");
+    rep.note("storage-key layer (streams directed.ns.*, ns): keys / collection names from an alphabet built to collide (emb:x next to x, b:emb:k, coll:a:emb:k; collections a, a:emb:b, a:emb, _default) on the real engine against the Lean model of the flat store and the cache slots (NsModel.lean); the oracle is the property against what was stored through the API in the searched collection (exact top-k: few vectors, so a cached index is exact). Its failures are classified from the answer and the history: vector_engine.search_similar/cached_index_strips_key_prefix (regression class of 4fa63773), and the known findings vector_engine.search_in_collection/default_cache_slot_shared (confirmed by replay with the slot invalidated) and vector_engine.search_in_collection/collection_prefix_overlap (another stored (collection, key) has the same storage key); directed reproductions run first on every run. The harness, as a caller of cache_hnsw_index, caches storage keys and never puts a named collection's index into slot _default");
+    rep.note("explicit-index entry points (op search_with_hnsw / search_with_hnsw_and_metric in the default streams, directed.explicit-index-*): build_hnsw_index over the current default collection, then the search on the returned index and key list; a query of another dimension than the indexed vectors must be refused (anything else, a panic included, is vector_engine.<entry point>/query_dimension_not_checked, the regression class of 733b279c); otherwise keys, order and scores are judged, and with at most 32 vectors the exact top-k (stream *.small_index_is_exact). search_with_hnsw_and_metric is run with ExtendedDistanceMetric::Cosine; its (cos+1)/2 similarity is mapped back to the cosine scale, the re-ranking itself is not modelled");
     let root = Rng::new(args.seed);
     let scale: u64 = if args.thorough { 12 } else { 1 };
 
     {
         let mut cx = Ctx { rep: &mut rep, m: &mut m, reported: BTreeSet::new() };
+        // the storage-key layer first: the regression case of 4fa63773 and the two known namespace findings
+        for (name, ops) in ns_directed() {
+            run_ns(&mut cx, &format!("directed.ns.{name}"), &ops);
+        }
         for (name, ops) in directed() {
             run_seq(&mut cx, &format!("directed.{name}"), &ops);
         }
+        ns_stream(&mut cx, &root, scale);
         for (focus, name, n) in [(0u64, "default", 1250u64), (1, "named", 900), (2, "mixed", 550)] {
             let base = root.fork(name);
             for i in 0..n * scale {
@@ -2223,21 +2742,20 @@ fn main() {
     bits_stream(&mut rep, &mut m, &root, scale);
     hnsw_stream(&mut rep, &mut m, &root, scale);
     observe_foreign_index(&mut rep);
-    observe_namespaces(&mut rep);
     observe_concurrent_build(&mut rep);
 
     rep.expected_branches = [
         "model.ranked", "model.index", "model.ann", "model.zero", "model.err", "repr.dense", "repr.sparse", "err.dim_mismatch", "err.not_found", "err.empty_vector", "err.invalid_top_k", "err.coll_exists",
         "err.coll_not_found", "err.batch_validation", "op.update_metadata", "op.remove_metadata_field", "op.batch_store_embeddings", "op.search_similar_paginated", "cfg.parallel_threshold=2",
         "hnsw.multi_layer", "hnsw.n>m0(pruning possible)", "hnsw.recall.approximate", "hnsw.recall.exact_topk", "hnsw.small_index_regime", "hnsw.data.non_integer", "hnsw.metric.cosine", "hnsw.metric.euclid",
-        "hnsw.metric.dot", "search.small_live_index.checked_exact",
+        "hnsw.metric.dot", "search.small_live_index.checked_exact", "search.explicit_small_index.checked_exact", "op.search_with_hnsw", "op.search_with_hnsw_and_metric", "ns.model.index", "ns.model.ranked",
     ]
         .iter()
         .map(|s| s.to_string())
         .collect();
     rep.note("scores: compared bit-for-bit against a recomputation of the engine's own f32 operation order from exact integers; the 1e-5 fallback (counted in distribution as score.within_1e-5(not-proof)) is an oracle, not a proof");
     rep.note("ties: the store's scan order is a HashSet iteration order, so equal scores are compared as tie classes (cosine: scores within 1e-6 relative are merged into one class, counted as rank.cosine_near_tie_merged)");
-    rep.note("collection names / keys are [a-z0-9]+; the index over a named collection is built by the harness with the default (cosine) HNSW metric and only for cosine collections; when a later create_collection gives such a collection another metric the harness, as the owner of that index, invalidates it (sent to the model as the `invalidate_hnsw_cache` operation)");
+    rep.note("default / named / mixed streams: collection names are [a-z0-9]+, keys are [a-z0-9]+ or such a key behind the storage prefix (emb:k0 next to k0); the index over a named collection is built by the harness with the default (cosine) HNSW metric and only for cosine collections; when a later create_collection gives such a collection another metric the harness, as the owner of that index, invalidates it (sent to the model as the `invalidate_hnsw_cache` operation)");
     rep.note("HNSW stream: the model is given the level each insert drew (harness copy of the private xorshift / ln formula) and the distances the real index computes (EmbeddingStorage::distance_dense on the stored embedding, as order keys); answers are compared node id for node id, so the std BinaryHeap tie order is part of the correspondence; the score reported for a node is checked to be to_similarity of that node's distance");
     rep.note("small_index_is_exact: every answer the engine takes from a live cached index over <= 32 vectors (default HNSWConfig) and every HNSW-stream search with n <= m0, n <= ef_construction, n <= max(ef,k) is compared with the exact top-k, as the Lean theorem small_index_search_is_exact predicts");
     rep.note("not modelled: HNSW storage strategies other than dense, recall beyond the small-index regime, SIMD rounding of engine scores on non-integer data, IVF indexes, entity embeddings, persistence, non-default engine configuration other than parallel_threshold");
